@@ -30,8 +30,16 @@ def copy_value(data):
         return t([copy_value(d) for d in data])
     elif t is dict:
         return {k: copy_value(v) for k, v in data.items()}
+    elif hasattr(t, "__parser__") and hasattr(data, "__dict__") and not isinstance(data, type):
+        # a data class instance: copied without going through its parsing API (item assignment would parse every
+        # value again, and is refused for an immutable one)
+        obj = t.__new__(t)
+        if isinstance(data, dict):
+            dict.update(obj, {k: copy_value(v) for k, v in dict.items(data)})
+        obj.__dict__.update({k: copy_value(v) for k, v in data.__dict__.items()})
+        return obj
     elif isinstance(data, (list, set, frozenset, tuple, dict, deque, bytearray)):
-        # a subclass (a named tuple, a defaultdict, a data class instance) or another mutable container:
+        # a subclass (a named tuple, a defaultdict) or another mutable container:
         # it cannot be rebuilt from its items alone, it is copied as a whole and keeps its type
         return deepcopy(data)
     return data
